@@ -180,6 +180,13 @@ def rule_v2sym_a64(ctx, R):
                 prim_e = [d for d in e]
                 ok = x.get('e') is not None and bool(prim_e) and set(prim_e) <= set(t) and all(d in prim_e for d in prim_t[:1])
                 R.check(ok, 'a64 %s: v1/v2 gate at line %s' % (gname, x.get('ln')), loc(x, g), expected='both arms patch the same location', found='v2 arm writes %s; v1 arm writes %s' % (t, e if x.get('e') is not None else 'NOTHING (no else)'))
+    # a patch whose *source* (or value) is chosen by `flags & V2 ? a : b` writes the same location in both versions by construction
+    for gname in ('generateProgram', 'generateProgramLight'):
+        g = F.func('randomx::JitCompilerA64::' + gname)
+        for x in walk(g['body']):
+            if x['k'] == 'Cond' and 'RANDOMX_FLAG_V2' in show(x['c']):
+                n += 1
+                R.ok('a64 %s: v1/v2 selection by conditional expression at line %s' % (gname, x.get('ln')), loc(x, g), detail='one patch site, value chosen per version')
     if n < 4:
         raise AnalysisBroken('V2-SYM: only %d v1/v2 gates found in the A64 generators' % n)
 
